@@ -307,6 +307,7 @@ func main() {
 
 // runProp evaluates all rules of a property; a panic inside a rule is a failed (undecided) obligation, never a pass.
 func runProp(w *World, id string) *Report {
+	curWorld = w
 	rep := NewReport(id)
 	pd := props[id]
 	if pd == nil {
